@@ -58,6 +58,13 @@ def _rename(body, old, new):
             j = n if j < 0 else j
             out.append(body[i:j]); i = j
             continue
+        if c == "'" and body[i + 2:i + 3] == "'":
+            out.append(body[i:i + 3]); i += 3; prev_tok = "'"; prev_sig = "'"     # a character literal such as '"' or '{'
+            continue
+        if c == "'" and body[i + 1:i + 2] == "\\" and body.find("'", i + 2) > 0 and body.find("'", i + 2) - i <= 8:
+            j = body.find("'", i + 2)
+            out.append(body[i:j + 1]); i = j + 1; prev_tok = "'"; prev_sig = "'"
+            continue
         if c == '"':
             j = i + 1
             while j < n and body[j] != '"':
